@@ -1,6 +1,7 @@
 import LinOp.Core.Parse
 import LinOp.C03.Model
 import LinOp.C03.OpParse
+import LinOp.C03.Getitem
 /-! Line-protocol driver for the C03 model (core only). -/
 open LinOp LinOp.C03 LinOp.Parse
 
@@ -93,6 +94,18 @@ def stepLine (_ : Unit) (line : String) : Unit × String :=
         match frontEnd op bshape idx with
         | some (sh, vals) => s!"S={showNats sh}|V={showInts vals}"
         | none => "none"
+      | _, _, _ => "bad-op"
+    | ["bdal", m, n, rs, re, cs, ce] =>
+      match [m, n, rs, re, cs, ce].mapM String.toNat? with
+      | some [m, n, rs, re, cs, ce] => showAlignedBD (blockDiagAligned m n rs re cs ce)
+      | _ => "bad-op"
+    | ["bial", k, rs, re, cs, ce] =>
+      match [k, rs, re, cs, ce].mapM String.toNat? with
+      | some [k, rs, re, cs, ce] => showAlignedBI (blockInterAligned k rs re cs ce)
+      | _ => "bad-op"
+    | ["slicebounds", n, a, b] =>
+      match n.toNat?, pOptInt a, pOptInt b with
+      | some n, some a, some b => s!"{sliceStart n a},{sliceStop n b}"
       | _, _, _ => "bad-op"
     | ["absorbed", b, r, c] => if rowColAbsorbed (b = "1") (r = "1") (c = "1") then "1" else "0"
     | _ => "bad-op"
